@@ -65,7 +65,7 @@ Definition site_table : list (string * string * string * string * nat * site_cla
    ("expand.rs", "render_child_fragment", "unwrap", "", 1, CK, "child_data-unwrap", "F-16d");
    ("expand.rs", "render_parent_child_fragment", "unwrap", "depth", 1, CL, "", "tested first");
    ("expand.rs", "render_parent_child_fragment", "index", "parent_child_field.sub_path[depth]", 1, CG, "sub_path-index", "depth_in_range");
-   ("expand.rs", "render_parent_child_fragment", "unwrap", "t_child_field.sub_path[depth].1.as_ref()", 1, CG, "sub_path-type-unwrap", "validation: should have type here");
+   ("expand.rs", "render_parent_child_fragment", "unwrap", "t_child_field.sub_path[depth].1.as_ref()", 1, CK, "sub_path-type-unwrap", "F-16m");
    ("expand.rs", "render_parent_child_fragment", "unwrap", "field.ty.as_ref()", 1, CK, "field-ty-unwrap", "F-16l");
    ("expand.rs", "struct_post_init", "todo", "", 1, CG, "todo-variant-parent", "validation: #[parent] is not supported on a variant");
    ("expand.rs", "render_parent", "unreachable", "5", 1, CG, "5", "render_parent_total");
